@@ -3,6 +3,7 @@ package main
 import (
 	"crypto/sha256"
 	"fmt"
+	"go/token"
 	"sort"
 	"strings"
 	"sync"
@@ -23,6 +24,7 @@ type UnitResult struct {
 	DroppedAuto []string      `json:"dropped_auto_invariants,omitempty"`
 	KeptAuto    []string      `json:"kept_auto_invariants,omitempty"`
 	Vacuity     string        `json:"vacuity"`
+	UnreachableReturns []string `json:"unreachable_return_points,omitempty"`
 	Trusted     bool          `json:"trusted,omitempty"`
 	SolverMs    int64         `json:"solver_ms"`
 	WallMs      int64         `json:"wall_ms"`
@@ -79,6 +81,9 @@ func (eng *Engine) VerifyFunction(fn *ssa.Function, key string, sp *FuncSpec) *U
 	u.discharge()
 	// vacuity: the assumptions up to the end of the preconditions must be satisfiable
 	res.Vacuity = u.vacuity()
+	if len(u.reach) > 1 {
+		res.UnreachableReturns = u.unreachableReturns()
+	}
 	for _, o := range u.obls {
 		if o.Auto {
 			continue
@@ -189,6 +194,7 @@ func (u *Unit) build() {
 					env.names[k] = v
 				}
 			}
+			u.reach = append(u.reach, reachCheck{fmt.Sprintf("return@%s", posString(u.eng.prog, lastPos(r.blk))), u.c.Len(), r.pc})
 			for _, en := range u.spec.Ensures {
 				t, err := env.evalBool(en.E)
 				if err != nil {
@@ -305,6 +311,60 @@ func (u *Unit) discharge() {
 	}
 	u.solveAll(rest, active)
 	u.finalActive = active
+}
+
+func lastPos(b *ssa.BasicBlock) token.Pos {
+	for i := len(b.Instrs) - 1; i >= 0; i-- {
+		if p := b.Instrs[i].Pos(); p.IsValid() {
+			return p
+		}
+	}
+	return token.NoPos
+}
+
+// unreachableReturns lists return points whose path condition is unsatisfiable under the contract's
+// preconditions and the assumed contracts of callees: postconditions there hold vacuously.
+func (u *Unit) unreachableReturns() []string {
+	var out []string
+	var mu sync.Mutex
+	var wg sync.WaitGroup
+	sem := make(chan struct{}, 4)
+	for _, rc := range u.reach[1:] {
+		if rc.Pc.S == "true" {
+			continue
+		}
+		rc := rc
+		wg.Add(1)
+		go func() {
+			defer wg.Done()
+			sem <- struct{}{}
+			defer func() { <-sem }()
+			var b strings.Builder
+			for _, l := range u.c.lines[:rc.Prefix] {
+				b.WriteString(l)
+				b.WriteByte('\n')
+			}
+			for _, cd := range u.cands {
+				if flagDeclared(u.c.lines[:rc.Prefix], cd.Flag) {
+					if u.finalActive[cd.Flag] {
+						fmt.Fprintf(&b, "(assert %s)\n", cd.Flag)
+					} else {
+						fmt.Fprintf(&b, "(assert (not %s))\n", cd.Flag)
+					}
+				}
+			}
+			fmt.Fprintf(&b, "(assert %s)\n", rc.Pc.S)
+			r := Solve(b.String(), nil, 3, false)
+			if r.Status == "unsat" {
+				mu.Lock()
+				out = append(out, rc.Name)
+				mu.Unlock()
+			}
+		}()
+	}
+	wg.Wait()
+	sort.Strings(out)
+	return out
 }
 
 func (u *Unit) vacuity() string {
